@@ -147,8 +147,6 @@ structure St.Inv (st : St) : Prop where
   prefixes_lt : ∀ p ∈ st.prefixes, p.1 < st.nextVid
   /-- every Vid on the scope stack has an entry in `prefixes` -/
   stack_prefixed : ∀ v ∈ st.vidStack, ∃ p ∈ st.prefixes, p.1 = v
-  /-- there is an open component output map -/
-  out_ne : st.outStack ≠ []
 
 theorem pathIsParent_iff (a b : List Vid) :
     St.pathIsParent a b = true ↔ a.length ≤ b.length ∧ a = b.take a.length := by
@@ -239,9 +237,8 @@ theorem referenceTag_sat {st : St} (hinv : st.Inv) (name : String) (useVid : Vid
                   · exact hinv.tags_path_ne
                   · exact hinv.prefixes_lt
                   · exact hinv.stack_prefixed
-                  · exact hinv.out_ne
         · exact ⟨⟨hinv.path_ne, hinv.imported_keys, hinv.tags_path_ne, hinv.prefixes_lt,
-            hinv.stack_prefixed, hinv.out_ne⟩, rfl, rfl, rfl, rfl, rfl, rfl, rfl, rfl⟩
+            hinv.stack_prefixed⟩, rfl, rfl, rfl, rfl, rfl, rfl, rfl, rfl⟩
     · simp [hinv]
 
 
